@@ -274,7 +274,8 @@ def explore(tier, seed, repo, budget_s, stats, found, ref, probes, pool, t_end, 
     # long-tailed run of one kind cannot starve the other kind
 
     def flush(specs):
-        ref.ensure([op for sp in specs for cl in sp['clients'] for op in cl])
+        ref.ensure([op for sp in specs if not sp.get('long') for cl in sp['clients'] for op in cl])
+        ref.ensure([op for sp in specs if sp.get('long') for cl in sp['clients'] for op in cl], count=False)
         check_twice(ref, pool, found)
         jobs = [(sp['hashseed'], gen.attach(sp, ref, probes)) for sp in specs]
         pool.run_jobs(jobs, on_result=on, deadline=t_end)
@@ -400,7 +401,7 @@ def main(tier='quick', seed=0, repo=None):
     repo = repo or os.environ.get('VERIF_REPO')
     c = corpus()
     probes = c['probes']
-    budget_s = float(os.environ.get('VERIF_BUDGET_S', '900' if tier == 'thorough' else '75'))
+    budget_s = float(os.environ.get('VERIF_BUDGET_S', '900' if tier == 'thorough' else '90'))
     if tier == 'quick':
         n_s1, n_s2, n_s3, s3_slice, instr_frac, sa_frac, max_min = 1600, 800, 16, 400, 0.08, 0.0, 150
         fr = 0.62
@@ -458,8 +459,10 @@ def main(tier='quick', seed=0, repo=None):
                     lst = [op for op in c['families'][f] if op['k'] != 'flow']
                     strat.extend(rng.sample(lst, min(2, len(lst))))
                 rng.shuffle(strat)
+                # families made of inputs that are sensitive to process configuration / first-use order go in whole
+                whole = [op for f in ('dialect_diff', 'reserved_words') for op in c['families'].get(f, [])]
                 pick, seen_k = [], set()
-                for op in errs[:s3_slice // 2] + strat[:s3_slice // 2] + rest:
+                for op in whole + errs[:s3_slice // 2] + strat[:s3_slice // 2] + rest:
                     k = O.op_key(op)
                     if k not in seen_k:
                         seen_k.add(k)
@@ -467,7 +470,7 @@ def main(tier='quick', seed=0, repo=None):
                     if len(pick) >= s3_slice + s3_slice // 4:
                         break
                 s3_all = pick
-            ref.ensure(s3_all)
+            ref.ensure(s3_all, count=False)
             check_twice(ref, sim_pool, found)
             sim_pool.close()
             ref_pool.close()
